@@ -245,10 +245,10 @@ Definition parse_depth (s : string) : nat := least_from (S (String.length s)) 0 
 
 Definition is_open (c : ascii) : bool := (Ascii.eqb c "(" || Ascii.eqb c "[" || Ascii.eqb c "{")%char.
 (* the opening brackets of a text *)
-Fixpoint opens (s : string) : nat :=
+Fixpoint open_count (s : string) : nat :=
   match s with
   | EmptyString => 0
-  | String c r => (if is_open c then 1 else 0) + opens r
+  | String c r => (if is_open c then 1 else 0) + open_count r
   end%nat.
 
 (* the family of the finding sig_parse_stack_unbounded *)
